@@ -635,3 +635,18 @@ package agent
 //@   nopanic
 //@ iface InspectorLike.IsDefined
 //@   nopanic
+//@   nilok
+//@   ensures result ==> value != nil
+//@ assume func reflect.ValueOf
+//@   nopanic
+//@   nilok
+//@   ensures rvalid(result) <==> $1 != nil
+//@ func (*inspector_).IsDefined
+//@   props C06
+//@   nilok
+//@   implements InspectorLike.IsDefined
+//@ func (*inspector_).isDefined
+//@   props C06
+//@   nilok
+//@   nopanic
+//@   ensures result ==> value != nil
